@@ -4,6 +4,9 @@ import traceback
 
 
 def main(argv):
+    import faulthandler
+    import signal
+    faulthandler.register(signal.SIGUSR1, all_threads=True)   # kill -USR1 <pid> dumps all stacks (debugging aid)
     from . import runner as R
     args = R.parse(argv)
     prop = args.prop.upper()
